@@ -7,6 +7,7 @@ import (
 	"fmt"
 	"os"
 	"sort"
+	"strconv"
 	"strings"
 	"sync"
 	"time"
@@ -82,6 +83,8 @@ type Runner struct {
 	known    map[string]bool // listed known-finding slugs "Cxx/slug"
 	propID   string
 	tier     string
+	eagerPkgs []*ssa.Package
+	eagerOnce sync.Once
 }
 
 func (r *Runner) newExec() *Exec {
@@ -91,7 +94,7 @@ func (r *Runner) newExec() *Exec {
 		fmt.Fprintln(os.Stderr, "cannot start solver:", err)
 		os.Exit(3)
 	}
-	return &Exec{prog: r.prog, tt: tt, solver: s, cfg: r.cfg, finfo: map[*ssa.Function]*fnInfo{}, typeMethodCache: map[string]*ssa.Function{}}
+	return &Exec{prog: r.prog, tt: tt, solver: s, cfg: r.cfg, finfo: map[*ssa.Function]*fnInfo{}, typeMethodCache: map[string]*ssa.Function{}, constCache: map[*ssa.Const]Value{}}
 }
 
 func (r *Runner) RunHarness(h *Harness) {
@@ -202,6 +205,7 @@ func (ex *Exec) runPath(r *Runner, h *Harness, prefix []decision) {
 				}
 			}
 		}()
+		ex.eagerInits()
 		ex.callFunction(h.Fn, nil, nil)
 	}()
 	ex.cleanupGoroutines()
@@ -330,15 +334,16 @@ func (ex *Exec) check(extra *Term, wantModel bool) (SatResult, *Model) {
 		ids[i] = int(c.id)
 	}
 	sort.Ints(ids)
-	var kb strings.Builder
+	kb := make([]byte, 0, len(ids)*6)
 	last := -1
 	for _, id := range ids {
 		if id != last {
-			fmt.Fprintf(&kb, "%d,", id)
+			kb = strconv.AppendInt(kb, int64(id), 36)
+			kb = append(kb, ',')
 			last = id
 		}
 	}
-	key := kb.String()
+	key := string(kb)
 	ce, hit := ex.qcache[key]
 	if hit && (!wantModel || ce.res != Sat || ce.model != nil) {
 		ex.cacheHits++
@@ -925,4 +930,34 @@ func (ex *Exec) realize(cond *Term, m *Model) *Model {
 		cur = nm
 	}
 	return cur
+}
+
+// packages whose init functions register codecs in global registries: nothing reads their
+// variables, so lazy initialisation would never run them.
+var eagerInitPkgs = []string{
+	"github.com/ipld/go-ipld-prime/codec/raw",
+	"github.com/ipld/go-ipld-prime/codec/dagcbor",
+	"github.com/ipld/go-ipld-prime/codec/dagjson",
+	"github.com/ipld/go-ipld-prime/codec/cbor",
+	"github.com/ipld/go-ipld-prime/codec/json",
+	"github.com/ipld/go-codec-dagpb",
+}
+
+func (ex *Exec) eagerInits() {
+	if ex.runner.eagerPkgs == nil {
+		ex.runner.eagerOnce.Do(func() {
+			l := []*ssa.Package{}
+			for _, p := range eagerInitPkgs {
+				if sp := ex.prog.ImportedPackage(p); sp != nil {
+					l = append(l, sp)
+				}
+			}
+			ex.runner.eagerPkgs = l
+		})
+	}
+	for _, sp := range ex.runner.eagerPkgs {
+		if !ex.inited[sp] {
+			ex.runInit(sp)
+		}
+	}
 }
